@@ -9,6 +9,14 @@ TB = ("trusted base: rustc's MIR construction and Instance resolution for the re
       "mir-opt-level 0, overflow checks on), the fact extractor /verif/driver, std/rpds/arcstr behaving as documented")
 
 CLAIMS = {
+ 'C15': dict(
+   technique="MIR control-dependence regions of is_recording() + effect scan; sibling-signature diff of run/next and eval/compile (custom extractor, Python rules)",
+   text=("Static: equality of results across drive modes is value-level and not decided as such; its two mechanisms are. R1 every block "
+         "control-dependent on either edge of an is_recording() branch, in every function of the crate, only logs/clones (no State write, no "
+         "mutating call, no return), and reverse_log has exactly four accessor functions - so forward execution performs the same writes with "
+         "recording on and off. R2 run and next call the same step under the same guard with the same error recorder (run merely loops); "
+         "eval/compile are one build entry with a constant mode, and only context_open/close compare the mode with Eval/Compile."),
+   ref='§3 C15'),
  'C07': dict(
    technique="registry/closure-constant table agreement + provenance of the emit updates (custom MIR extractor, Python rules)",
    text=("Thin, static: the pack->concatenate->parse round trip is value-level and not decided. Decided: all 60 (u|i|f)(8..64)(le|be)?(!)? words "
